@@ -53,9 +53,23 @@ func intParamsLeaf(fn *ssa.Function, vals []int64, rest leafX) leafX {
 	}
 }
 
+// solarFieldRanges: the fields of a civil date NewSolar validates on their own (parameters 1..5), with the stated range.
+var solarFieldRanges = []struct {
+	key    string
+	lo, hi int64
+}{{"Solar.month", 1, 12}, {"Solar.day", 1, 31}, {"Solar.hour", 0, 23}, {"Solar.minute", 0, 59}, {"Solar.second", 0, 59}}
+
+func seqInt64(lo, hi int64) []int64 {
+	var out []int64
+	for k := lo; k <= hi; k++ {
+		out = append(out, k)
+	}
+	return out
+}
+
 func r04_8(c *Ctx, r *Report) {
 	const rule = "R04.8"
-	r.rule(rule, "The leaves of the civil calendar, as decision tables over their whole domain (loop-free functions followed by the evaluator; the checker's own calendar arithmetic is the reference): IsLeapYear for every year 1..9999 (Julian rule up to 1582, Gregorian after); GetDaysOfMonth for every year and month (21 for October 1582); GetDaysOfYear (355 for 1582); NewSolar accepts exactly month 1..12, day 1..31 and, outside October 1582, day <= month length, inside it not 5..14, hour 0..23, minute and second 0..59; NextYear and NextMonth land on the target year/month with the day moved over the October-1582 gap (5..14 -> +10), else clamped to the target month's length, and the time of day unchanged.")
+	r.rule(rule, "The leaves of the civil calendar, as decision tables over their whole domain (loop-free functions followed by the evaluator; the checker's own calendar arithmetic is the reference): IsLeapYear for every year 1..9999 (Julian rule up to 1582, Gregorian after); GetDaysOfMonth for every year and month (21 for October 1582); GetDaysOfYear (355 for 1582); NewSolar accepts exactly month 1..12, day 1..31 and, outside October 1582, day <= month length, inside it not 5..14, hour 0..23, minute and second 0..59 (also each field on its own, the others valid, for every value from -3 to 64 and far values on both sides); NextYear and NextMonth land on the target year/month with the day moved over the October-1582 gap (5..14 -> +10), else clamped to the target month's length, and the time of day unchanged.")
 	report := func(construct string, pos string, n int, bad []string) {
 		sort.Strings(bad)
 		r.check(len(bad) == 0 && n > 0, rule, construct, pos, fmt.Sprintf("%d cases evaluated; deviations: %v", n, headList(dedupe(bad), 3)))
@@ -129,9 +143,21 @@ func r04_8(c *Ctx, r *Report) {
 		}
 		var bad []string
 		n := 0
+		monthsHanded := true
 		accept := func(vals []int64) (bool, string) {
-			// followed to the return: checks may stand in the block of the allocation itself
-			_, outcome, fail := run(fn, intParamsLeaf(fn, vals, nil), nil)
+			// followed to the return: checks may stand in the block of the allocation itself; the month every call of
+			// GetDaysOfMonth on the way is handed is noted (it indexes the month-length table)
+			ev := &evaluator{inline: inlineLibrary, leaf: intParamsLeaf(fn, vals, nil)}
+			ev.visit = func(fr *evalFrame, call *ssa.Call) {
+				if callee := call.Common().StaticCallee(); callee != nil && fname(callee) == "SolarUtil.GetDaysOfMonth" && len(call.Common().Args) == 2 {
+					m, ok := ev.eval(fr, call.Common().Args[1], 0)
+					if k, isI := m.(int64); !ok || !isI || k < 1 || k > 12 {
+						monthsHanded = false
+					}
+				}
+			}
+			_, outcome := ev.run(fn, nil, nil, nil, nil)
+			fail := ev.fail
 			switch {
 			case outcome == "panic":
 				return false, ""
@@ -169,7 +195,24 @@ func r04_8(c *Ctx, r *Report) {
 				bad = append(bad, fmt.Sprintf("time %d:%d:%d accepted=%v, expected %v", t[0], t[1], t[2], got, want))
 			}
 		}
+		// each field on its own, the others valid: every value from -3 to 64 and far values on both sides
+		for i, rg := range solarFieldRanges {
+			for _, v := range append(seqInt64(-3, 64), -1000, 1000, -1<<40, 1<<40) {
+				vals := []int64{2022, 5, 17, 12, 30, 30}
+				vals[i+1] = v
+				got, msg := accept(vals)
+				n++
+				want := v >= rg.lo && v <= rg.hi
+				if msg != "" {
+					bad = append(bad, msg)
+				} else if got != want {
+					bad = append(bad, fmt.Sprintf("%s %d accepted=%v, expected %v", rg.key, v, got, want))
+				}
+			}
+		}
 		report("calendar.NewSolar accepts exactly the days and times of the civil calendar", c.fnPos(fn), n, bad)
+		c.solarTableOK = len(bad) == 0 && n > 0
+		c.solarTableMonthsOK = c.solarTableOK && monthsHanded
 	}
 	// the two clamping steps
 	solarLeaf := func(fn *ssa.Function, y, m, d, arg int64) leafX {
